@@ -1,4 +1,5 @@
 import WV.Proofs.C07
+import WV.Proofs.C07_Connect
 
 /-! World-level lemmas for C07: everything the supervisor (`InboundConnectionFactory`,
 `_ThereCanBeOnlyOne`, `_not_forever`, the clock) does to connections is a sequence of *benign*
@@ -239,7 +240,8 @@ theorem attach_quiet (w : World) (k : Nat) : Quiet w (attach w k) := by
     · exact Quiet.of_eq rfl rfl rfl rfl
 
 theorem evConnect_quiet {w w' : World} (h : evConnect w = some w') : Quiet w w' := by
-  unfold evConnect at h
+  rw [evConnect_eq] at h
+  unfold evConnectHead at h
   split at h
   · cases h
   · simp only [] at h
